@@ -474,6 +474,14 @@ def run(ctx):
         if path and path[-1] == "<order>":
             labs &= ORDER
         where = "value stored under %s (%s)" % ("/".join(path) or "<top level>", how)
+        work = C.in_worklist_loop(ctx, fn, node)
+        if work is not None and labs & {"raw-path", "abs-path", "norm-path", "enum-order", "custom-order", "raw-name"}:
+            # an iterative walk: directory, listing and dictionary travel together as tuples on the stack `work`, and the
+            # origin terms do not keep the components of such tuples apart
+            n_info += 1
+            ctx.undecided("C08.1", fn, "%s is computed inside a loop that keeps its own stack of open directories (`%s`): the components of the "
+                          "stacked tuples are not kept apart, so whether the path or the listing order reaches it is not decided" % (where, work), node)
+            return
         if path and path[0] in ("info", "piece layers"):
             n_info += 1
             judge(ctx, "C08.1", fn, node, path, labs, where, allow_raw_name=isfile_guarded(ctx, fn, node))
